@@ -2,6 +2,7 @@ SPECIFICATION Spec
 INVARIANT C20_RootSquares
 INVARIANT C20_Pythagoras
 INVARIANT C20_PowerRecurrence
+INVARIANT C20_NegPower
 INVARIANT C20_UnitCycle
 INVARIANT C20_TablesTotalAndConjugate
 INVARIANT C20_DFRecurrence
